@@ -37,7 +37,10 @@ def handleSv (toks : List String) : String :=
         | .error e => "err " ++ e.toString
       if op = "sv.corr" then s!"{model}\t-\t1" else
       let spec := "ok " ++ showList showAns (reqs.map (specAns src))
-      let wf := if !validUtf8 src then "0" else if reqs.any (reqMidPair src) then "2" else "1"
+      -- a slice column strictly inside a surrogate pair stays inside the property: the specification includes the
+      -- cut pair ("whole surrogate pairs included"), the code starts after it - open finding F22, recognised by
+      -- its failure class in tools/gen/c15.py; everything else about such a case is judged normally
+      let wf := if !validUtf8 src then "0" else "1"
       s!"{model}\t{spec}\t{wf}"
   | _ => "bad-op\t-\t0"
 
